@@ -486,6 +486,17 @@ func runC15(c *core.Case) {
 				do("detector.CheckExtendedSpatialIdsOverlap", fmt.Sprintf("%q %q", a, b), func() (any, error) { return detector.CheckExtendedSpatialIdsOverlap(a, b) })
 			} else {
 				l1, l2 := mixList(r, vext, bad), []string{other, vext()}
+				switch r.Intn(6) {
+				case 0: // nothing opposite the malformed ID
+					l2 = []string{}
+					if r.Bool() {
+						l2 = nil
+					}
+				case 1: // the malformed string is the only content of both lists
+					l1, l2 = []string{bad}, []string{bad}
+				case 2:
+					l1, l2 = []string{bad, bad}, []string{bad}
+				}
 				if r.Bool() {
 					l1, l2 = l2, l1
 				}
@@ -512,6 +523,12 @@ func runC15(c *core.Case) {
 				do("detector.CheckSpatialIdsOverlap", fmt.Sprintf("%q %q", a, b), func() (any, error) { return detector.CheckSpatialIdsOverlap(a, b) })
 			} else {
 				l1, l2 := mixList(r, vsp, bad), []string{other}
+				switch r.Intn(6) {
+				case 0:
+					l1, l2 = []string{bad}, []string{bad}
+				case 1:
+					l1, l2 = []string{bad, bad}, []string{bad}
+				}
 				if r.Bool() {
 					l1, l2 = l2, l1
 				}
